@@ -214,6 +214,7 @@ def run(ctx):
                 res.fail("spec", "C16:%s-not-a-member" % k, inp, "%r not in the list" % o[k][1])
         if not knotted and (len(members) != 1 or set(members[0]) - set("().")):
             res.fail("spec", "C16:knot-free-not-single-round", inp, "%r" % members[:3])
+    import corr.c16_impl as c16_impl; c16_impl.run_impl(ctx, res, inputs, outs)  # implementation-level model (DFS, greedy loop, list order)
     both = list(zip(inputs, outs))
     for (tag, c), o in both[::max(1, len(both) // 6)][:6]:
         res.sample({"family": tag, "seq": c[0][:30], "pairs": c[1][:30], "all": o["all"][1][:4] if o["all"][0] == "ok" else o["all"]})
